@@ -394,3 +394,41 @@ Section P2Start.
     | Err => Err
     end.
 End P2Start.
+
+(* ------------------------------------------------------------------ request lists as the caller writes them: integers
+   The drivers compare the entries of fixed_modes with the modes 0..ndim-1 by `in` / `==` only, so an entry outside range(ndim)
+   -- NEGATIVE ones included: -1 is not read as "the last mode" -- equals no mode and fixes nothing.  Such an entry is
+   represented by a natural number >= ndim (as_mode).  Two drivers also use the entries as list indices before the loop
+     for fixed_value in fixed_modes: sparsity_coefficients[fixed_value] = None      (non_negative_parafac_hals, non_negative_tucker_hals)
+   on a list of length ndim with Python's index semantics: an entry outside [-ndim, ndim) raises IndexError there, whatever the
+   budget; an entry in [-ndim, 0) is accepted (and clears the sparsity coefficient of mode ndim+entry, which is then updated). *)
+From Coq Require Import ZArith.
+Definition names_mode (n : nat) (z : Z) : bool := ((0 <=? z) && (z <? Z.of_nat n))%Z.
+Definition as_mode (n : nat) (z : Z) : nat := if (0 <=? z)%Z then Z.to_nat z else n + Z.to_nat (- z).
+Definition indexes_list (a : algo) : bool := match a with NNHals | NTDHals => true | _ => false end.
+Definition entry_raises (a : algo) (n : nat) (z : Z) : bool :=
+  indexes_list a && negb ((- Z.of_nat n <=? z) && (z <? Z.of_nat n))%Z.
+Definition request (a : algo) (n : nat) (fixed : list Z) : res (list nat) :=
+  if existsb (entry_raises a n) fixed then Err else Ok (map (as_mode n) fixed).
+(* the mode a Python index denotes: z for 0 <= z < n, n + z for -n <= z < 0 *)
+Definition py_index (n : nat) (z : Z) : nat := if (0 <=? z)%Z then Z.to_nat z else Z.to_nat (Z.of_nat n + z).
+
+(* parafac2 start state, all three kinds of initialisation: after the projection of a built-in initialisation onto the non-negative
+   modes, `if init == "svd": projections = _compute_projections(tensor_slices, factors, svd)` recomputes the projections from the
+   projected factors (LAPACK: `proj` is an arbitrary function here, an answer tape in the correspondence); init="random" keeps them *)
+Inductive p2kind := UserInit | BuiltinRandom | BuiltinSvd.
+Section P2StartKind.
+  Context {F : Type} (one : F).
+  Definition p2_start_kind (qr : @matrix F -> @matrix F * @matrix F) (rank : nat) (clip : @matrix F -> @matrix F)
+      (proj : list (@matrix F) -> list (@matrix F)) (kind : p2kind) (nn : option (list nat)) (init : p2init F)
+      : res (p2st F (list (@matrix F))) :=
+    match p2_init one qr rank init with
+    | Err => Err
+    | Ok s =>
+        match nn, kind with
+        | Some ms, BuiltinRandom => Ok (mkp2 (p2w s) (clip_modes clip ms 0 (p2f s)) (p2P s))
+        | Some ms, BuiltinSvd => let fs := clip_modes clip ms 0 (p2f s) in Ok (mkp2 (p2w s) fs (proj fs))
+        | _, _ => Ok s
+        end
+    end.
+End P2StartKind.
